@@ -155,6 +155,30 @@ def run(ctx):
                     oracle_fail.append({"why": "cursor routing left BrailleNavHighlight changed", "pos": c, "pref": pv.get("v"), "expected": style, "xml": xml, "code": code, "lines": lines})
                 if nid.get("v") != [root, 0]:
                     oracle_fail.append({"why": "cursor routing moved the navigation position", "pos": c, "nav_id": nid.get("v"), "xml": xml, "code": code, "lines": lines})
+            # ---- route, then go there: the (id, offset) a cell routes to is made the navigation position (what a host does on a routing key),
+            # and the position of the current node is asked for under every style -- it has to stay inside the braille (start <= end <= length)
+            routed = []
+            for j, c in enumerate(cells):
+                fb = rep[2 + 3 * j]
+                if fb.get("r") == "ok" and fb["v"][0] in ids and fb["v"] not in routed:
+                    routed.append(fb["v"])
+            routed = [x for x in routed if x[1] != 0] + [x for x in routed if x[1] == 0][:3]
+            for rstyle in STYLES[1:]:
+                reqs2 = [{"op": "set_pref", "name": "BrailleNavHighlight", "value": rstyle}]
+                for (rid, roff) in routed:
+                    reqs2 += [{"op": "set_nav", "id": rid, "off": roff}, {"op": "bpos"}]
+                rep2 = im.run(reqs2 + [{"op": "set_nav", "id": root, "off": 0}])
+                for j, (rid, roff) in enumerate(routed):
+                    bp2 = rep2[2 + 2 * j]
+                    evals += 1
+                    lines = pre[1:] + [{"op": "set_mathml", "xml": xml}, {"op": "set_pref", "name": "BrailleNavHighlight", "value": rstyle}, {"op": "set_nav", "id": rid, "off": roff}, {"op": "bpos"}]
+                    if bp2.get("r") in ("panic", "abort", "timeout"):
+                        panics.append({"code": code, "style": rstyle, "id": rid, "xml": xml, "reply": bp2, "lines": lines})
+                    elif bp2.get("r") == "ok":
+                        a, e = bp2["v"]
+                        if not (a <= e <= n):
+                            oracle_fail.append({"why": "position of the node a cell routed to is not inside the braille (start <= end <= length)", "routed_to": [rid, roff], "position": [a, e], "length": n,
+                                                "style": rstyle, "xml": xml, "code": code, "lines": lines})
             if rep[-2].get("v") != plain or rep[-1].get("v") != speech0.get("v"):
                 oracle_fail.append({"why": "cursor routing changed later braille/speech output", "xml": xml, "code": code, "lines": pre[1:] + [{"op": "set_mathml", "xml": xml}] + reqs})
             if len(samples) < 3 and mcases:
